@@ -314,3 +314,82 @@ M('c08-get-param-cuts-at-last-comma', 'C08', 'R11', 'falcon/request.py',
             if store is not None:
                 store[name] = param
 """)
+
+# ---- wave 7: R12 the JSON getter converts with the handler the collection's RESOLVER gives (s7-c08-1)
+_JSON_RESOLVE = """        handler, _, _ = self.options.media_handlers._resolve(
+            MEDIA_JSON, MEDIA_JSON, raise_not_found=False
+        )
+        if handler is None:
+            handler = _DEFAULT_JSON_HANDLER
+"""
+# the seed: a plain dict lookup misses a handler registered under 'application/json; charset=UTF-8'
+M('c08-json-getter-handler-by-dict-get', 'C08', 'R12', 'falcon/request.py', _JSON_RESOLVE,
+  """        handler = self.options.media_handlers.get(MEDIA_JSON)
+        if handler is None:
+            handler = _DEFAULT_JSON_HANDLER
+""")
+# variant: membership test + subscript
+M('c08-json-getter-handler-by-membership', 'C08', 'R12', 'falcon/request.py', _JSON_RESOLVE,
+  """        if MEDIA_JSON in self.options.media_handlers:
+            handler = self.options.media_handlers[MEDIA_JSON]
+        else:
+            handler = _DEFAULT_JSON_HANDLER
+""")
+# variant: the lookup goes to the UserDict's backing dict, through a local alias
+M('c08-json-getter-handler-from-backing-dict', 'C08', 'R12', 'falcon/request.py', _JSON_RESOLVE,
+  """        handlers = self.options.media_handlers
+        handler = handlers.data.get(MEDIA_JSON) or _DEFAULT_JSON_HANDLER
+""")
+# variant: the stock handler is used whatever the resolver answered
+M('c08-json-getter-always-stock-handler', 'C08', 'R12', 'falcon/request.py',
+  """        if handler is None:
+            handler = _DEFAULT_JSON_HANDLER
+
+        try:
+            # TODO(CaselIT)""", """        handler = _DEFAULT_JSON_HANDLER
+
+        try:
+            # TODO(CaselIT)""")
+# variant: the resolver is asked for another media type
+M('c08-json-getter-resolves-other-type', 'C08', 'R12', 'falcon/request.py',
+  """            MEDIA_JSON, MEDIA_JSON, raise_not_found=False
+        )
+        if handler is None:
+            handler = _DEFAULT_JSON_HANDLER
+""", """            'text/json', 'text/json', raise_not_found=False
+        )
+        if handler is None:
+            handler = _DEFAULT_JSON_HANDLER
+""")
+# variant: a removed JSON handler is no longer tolerated (415 instead of the stock reading)
+M('c08-json-getter-resolver-raises-when-missing', 'C08', 'R12', 'falcon/request.py',
+  """            MEDIA_JSON, MEDIA_JSON, raise_not_found=False
+        )
+        if handler is None:
+            handler = _DEFAULT_JSON_HANDLER
+""", """            MEDIA_JSON, MEDIA_JSON
+        )
+        if handler is None:
+            handler = _DEFAULT_JSON_HANDLER
+""")
+
+# ---- wave 7: R13 (= C06 R8) the parameter mapping is per request (s7-c08-2)
+M2('c08-asgi-params-mutable-class-default', 'C08', 'R13', [
+    {'file': 'falcon/asgi/request.py', 'old': """        else:
+            self._params = {}
+
+""", 'new': """
+"""},
+    {'file': 'falcon/asgi/request.py', 'old': "    _media: UnsetOr[Any] = _UNSET\n", 'new': "    _media: UnsetOr[Any] = _UNSET\n    _params: Dict[str, Any] = {}\n"}],
+   also=('C06', 'C19'))
+# variant: the class default is spelled dict() and the empty-query branch is a bare pass
+M2('c08-asgi-params-class-default-dict-call', 'C08', 'R13', [
+    {'file': 'falcon/asgi/request.py', 'old': """        else:
+            self._params = {}
+
+""", 'new': """        else:
+            pass
+
+"""},
+    {'file': 'falcon/asgi/request.py', 'old': "    _stream: Optional[BoundedStream] = None\n", 'new': "    _stream: Optional[BoundedStream] = None\n    _params: Dict[str, Any] = dict()\n"}],
+   also=('C06', 'C19'))
